@@ -156,7 +156,7 @@ fn build(w: &Value) -> Built {
     for (k, t) in threads.iter().enumerate() {
         let mut lw: Vec<Option<i64>> = vec![None; nglob];
         for op in t["ops"].as_array().into_iter().flatten() {
-            if op[0] == "set" {
+            if op[0] == "set" || op[0] == "boxed" {
                 let g = op[1].as_u64().unwrap() as usize % nglob;
                 let v = op[2].as_i64().unwrap();
                 written[g].push(v);
@@ -178,6 +178,16 @@ fn build(w: &Value) -> Built {
     let mut locks = 0i64;
     let mut expects: Vec<String> = Vec::new();
     let mut sends_per_thread: Vec<usize> = Vec::new();
+    for k in 0..threads.len() {
+        src.push_str(&format!(
+            "(define hold-{k} (mutable-vector (box {a}) (box {b}) (box {c}) (box {d})))\n",
+            k = k,
+            a = 7000 + 10 * k,
+            b = 7001 + 10 * k,
+            c = 7002 + 10 * k,
+            d = 7003 + 10 * k
+        ));
+    }
     for (k, t) in threads.iter().enumerate() {
         // thread 0 is main
         let mut body = String::new();
@@ -194,6 +204,26 @@ fn build(w: &Value) -> Built {
                 "set" => {
                     let g = op[1].as_u64().unwrap() as usize % nglob;
                     (format!("(let ((lt (lin-b 0 {g} {v}))) (set! g{g} {v}) (lin-e lt {v}) 0)", g = g, v = op[2]), "0".into())
+                }
+                "boxed" => {
+                    // an assignment made by a closure that runs on a forked thread state
+                    // (what FFI callbacks use): seen by everybody afterwards
+                    let g = op[1].as_u64().unwrap() as usize % nglob;
+                    (format!("(let ((bf (#%closure->boxed-function (lambda () (let ((lt (lin-b 0 {g} {v}))) (set! g{g} {v}) (lin-e lt {v}) 0))))) (bf))", g = g, v = op[2]), "0".into())
+                }
+                "shuffle" => {
+                    // the only reference to a box moves from a global container onto the
+                    // stack and back, with allocation in between: reachable at every
+                    // instant, but through a different root before and after
+                    let i = a.rem_euclid(4);
+                    (
+                        format!(
+                            "(let ((b (mut-vector-ref hold-{k} {i}))) (vector-set! hold-{k} {i} #f) (alloc 2) (let ((v1 (unbox b))) (vector-set! hold-{k} {i} b) (alloc 2) (+ v1 (unbox (mut-vector-ref hold-{k} {i})))))",
+                            k = k,
+                            i = i
+                        ),
+                        (2 * (7000 + 10 * k as i64 + i)).to_string(),
+                    )
                 }
                 "read" => {
                     let g = op[1].as_u64().unwrap() as usize % nglob;
@@ -299,7 +329,12 @@ fn gen_workload(rng: &mut Rng, prop: &str, thorough: bool) -> Value {
     let (gn, gd) = *rng.pick(&[(0u64, 1u64), (0, 1), (1, 16), (1, 4), (1, 1)]);
     let nglob = rng.range(1, 3);
     // swarm: which operation kinds this run uses
-    let all = ["work", "alloc", "valloc", "set", "read", "send", "lock", "gc", "tls", "nested", "hof"];
+    // "boxed" (an assignment made inside a #%closure->boxed-function, i.e. on a
+    // thread state forked by make_thread) is rendered but not generated: the
+    // forked state runs on its parent's OS thread, which the monitors' model of
+    // one script thread per simulated thread does not represent, and the
+    // unchanged tree blocks in un-hooked code on that path (DESIGN.md §12, C15-5)
+    let all = ["work", "alloc", "valloc", "set", "read", "send", "lock", "gc", "tls", "nested", "hof", "shuffle", "shuffle"];
     let mut kinds: Vec<&str> = all.to_vec();
     rng.shuffle(&mut kinds);
     kinds.truncate(rng.range(2, 7) as usize);
@@ -333,11 +368,12 @@ fn gen_workload(rng: &mut Rng, prop: &str, thorough: bool) -> Value {
                 "nested" => rng.range(2, 20),
                 "hof" => rng.range(2, 10),
                 "tls" => rng.range(1, 50),
+                "shuffle" => rng.below(4),
                 _ => rng.below(3),
             } as i64;
-            if kind == "set" {
+            if kind == "set" || kind == "boxed" {
                 uniq += 1;
-                ops.push(json!(["set", amount, uniq]));
+                ops.push(json!([kind, amount, uniq]));
             } else {
                 ops.push(json!([kind, amount, 0]));
             }
@@ -437,7 +473,12 @@ fn panic_class(msg: &str) -> Option<String> {
     } else if msg.contains("called `Option::unwrap()` on a `None` value") {
         // the marker met a reference to a slot that no longer exists: some
         // stack was not scanned by an earlier collection
-        Some(format!("C15/host-panic/{}/dangling-slot-during-mark", tier))
+        if msg.contains("FreeList") && msg.contains("allocate") {
+            // the allocator's count of free slots says there is one, the mark bits say there is none
+            Some(format!("C15/host-panic/{}/free-slot-count-disagrees-with-mark-bits-in-allocate", tier))
+        } else {
+            Some(format!("C15/host-panic/{}/dangling-slot-during-mark", tier))
+        }
     } else {
         Some(format!("C16/host-panic/{}/{}", tier, short))
     }
